@@ -38,6 +38,8 @@ def nontrivial(engine, opline):
         return bool(t) and t[0] == 'tree'
     if engine == 'erc20':
         return bool(t) and t[0] in ('erc', 'esend')
+    if engine == 'logfilter':
+        return bool(t) and t[0] == 'lf' and 'logs=-' not in t
     if engine == 'crash':
         return bool(t) and t[0] == 'crash'
     if engine == 'conc':
@@ -221,14 +223,15 @@ PROPS['C19'] = dict(
 )
 
 PROPS['C20'] = dict(
-    lean_modules=['Model.EventSys', 'Model.Block', 'Model.FeeMarket', 'Properties.C06', 'Properties.C09', 'Properties.C13', 'Properties.C20', 'Properties.C20Conc', 'Facts.EventSys', 'Facts.C09', 'Facts.Panics'],
+    lean_modules=['Model.EventSys', 'Model.Block', 'Model.FeeMarket', 'Properties.C06', 'Properties.C09', 'Properties.C13', 'Model.LogFilter', 'Properties.C20', 'Properties.C20Conc', 'Properties.C20Filter', 'Facts.EventSys', 'Facts.C09', 'Facts.Panics'],
     facts=['*'],
     theorems=['C20_rejected_is_noop', 'C20_dropped_is_noop', 'C20_isolation', 'C20_isolation_replace', 'runItems_append',
               'C09_total', 'C09_total_no_divzero', 'C09_zero_target_keeps', 'C13_endBlock_total', 'C13_inv_block',
               'C20_no_send_on_closed', 'inv_step', 'inv_run', 'C20_original_crashes', 'C20_original_drops', 'C20_lock_needed', 'C20_index_needed',
-              'fact_basefee_guards', 'fact_maxgas_guard', 'fact_block_panic_sites', 'fact_consume_locks_across_send', 'fact_install_shape', 'fact_uninstall_shape', 'fact_join_indexes'],
+              'C20_filter_total', 'C20_filterLogs_total', 'C20_guard_needed', 'topicLoop_total', 'fact_filterlogs_guards', 'fact_basefee_guards', 'fact_maxgas_guard', 'fact_block_panic_sites', 'fact_consume_locks_across_send', 'fact_install_shape', 'fact_uninstall_shape', 'fact_join_indexes'],
     engines=[dict(name='crash', test='TestEngineCrash', quick=250, thorough=600, thorough_seeds=3, no_model=True),
-             dict(name='conc', test='TestEngineConc', quick=3, thorough=12, thorough_seeds=2, no_model=True, race_in_thorough=True)],
+             dict(name='conc', test='TestEngineConc', quick=3, thorough=12, thorough_seeds=2, no_model=True, race_in_thorough=True),
+             dict(name='logfilter', test='TestEngineLogfilter', quick=3000, thorough=200000, thorough_seeds=3)],
     rule='E-crash: batches of 1-4 hostile transactions (16 classes: garbage / empty embedded Ethereum payloads, extreme numeric fields, every custom-precompile selector with random / truncated / saturated / far-offset calldata directly and through CALL / STATICCALL / DELEGATECALL / CALLCODE, mixed lanes, nested authz, bad addresses and coins, adversarial module messages, Ethereum message in the Cosmos lane, mutated valid bytes, random bytes, random init code with large access lists, foreign chain ids, value into module / precompile addresses, wrong declared sender) through CheckTx (new, recheck), PrepareProposal, ProcessProposal, FinalizeBlock + Commit with a recover sentinel outside BaseApp; gRPC queries (15 paths, adversarial and random request bytes, heights incl. negative and future); consensus-parameter sweeps (MaxGas -1,0,1,2,20999,21000,21001,1e6 x MaxBytes 1,200,default,-1) with blocks of valid transactions; a liveness block after every fifth batch and every sweep; isolation on two fresh instances of the application (same genesis, block 1 with one position holding two different failing transactions that leave no event). E-conc: the real EventSystem + memEventBus over the real CometBFT WSClient against an in-process websocket endpoint, in child processes: the two schedules of the protocol model forced through the verif schedule points, and 6-goroutine subscribe / unsubscribe stress with events for known and unknown queries (thorough: under the race detector). Non-trivial = every crash / conc line; distinct by op-line hash',
     assumptions=['crash-freedom for inputs outside the generators is NOT proved: E-crash is an exploration (labelled); the theorems cover isolation and totality in the block / fee-market / receipt models and the channel protocol of the event system',
                  'the SDK, CometBFT and go-ethereum code is exercised, not verified; memory exhaustion and the websocket server are out of scope',
@@ -319,13 +322,14 @@ PROPS['C08'] = dict(
 )
 
 PROPS['C14'] = dict(
-    lean_modules=['Model.Indexer', 'Properties.C14', 'Properties.C13', 'Facts.Indexer', 'Facts.Block'],
+    lean_modules=['Model.Indexer', 'Model.LogFilter', 'Properties.C14', 'Properties.C13', 'Properties.C20Filter', 'Facts.Indexer', 'Facts.Block', 'Facts.EventSys'],
     facts=['*'],
-    theorems=['C14_lookup_by_hash', 'C14_lookup_by_index', 'C14_index_eq_consensus', 'C14_reindex_idempotent', 'C14_restart_skips_fails',
+    theorems=['C14_filter_topics', 'topicLoop_spec', 'fact_filterlogs_guards', 'C14_lookup_by_hash', 'C14_lookup_by_index', 'C14_index_eq_consensus', 'C14_reindex_idempotent', 'C14_restart_skips_fails',
               'C14_restart_partial', 'C14_restart_resumes', 'indexFrom_get', 'indexFrom_get_other', 'cntBefore_eq_consensus', 'C13_txIndex', 'C13_logIndex',
               'C13_cumulativeGas', 'fact_one_batch_per_block', 'fact_restart_rule', 'fact_log_index_restored'],
     engines=[dict(name='indexer', test='TestEngineIndexer', quick=40, thorough=1200, thorough_seeds=2),
-             dict(name='indexersvc', test='TestEngineIndexerService', quick=1, thorough=6, thorough_seeds=1, no_model=True)],
+             dict(name='indexersvc', test='TestEngineIndexerService', quick=1, thorough=6, thorough_seeds=1, no_model=True),
+             dict(name='logfilter', test='TestEngineLogfilter', quick=2000, thorough=100000, thorough_seeds=2)],
     rule='E-indexer: multi-transaction blocks of every outcome class (20 tx kinds of E-block, heavy blocks, undecodable bytes inserted at random positions) from the real FinalizeBlock are indexed by the real KVIndexer; every Ethereum hash of the block, an older hash, an unknown hash, every (block, index) up to two past the end and of neighbouring heights are looked up; one block in five is first indexed with an injected failure of the batch write, every block is indexed twice; the real JSON-RPC backend over the recorded blocks must report sender, status, gas used, cumulative gas, log indices and transaction index of the consensus results. E-indexersvc: the real EVMIndexerService is stopped before it hears of a block with Ethereum transactions and restarted on the same database (non-empty and empty). non-trivial = every block line; distinct by op-line hash',
     assumptions=['the CometBFT RPC client is replaced by a recorder serving the blocks and results of the real FinalizeBlock calls (block hash and header fields other than height are synthetic)',
                  'getBlock / getLogs views are covered through the same event parsing as the receipts; block-level RPC formatting is not compared field by field',
